@@ -9,6 +9,7 @@ import (
 	"fmt"
 	"os"
 	"path/filepath"
+	"reflect"
 	"sort"
 	"strings"
 	"sync"
@@ -87,6 +88,27 @@ func outcomeOf(sc *scenario, res am.Result, pan interface{}) string {
 	return fmt.Sprintf("ok:%d", res.Len())
 }
 
+// convertOutcome: cv:ok, cv:err:<class> or cv:panic:<class> for one Convert to t with the shared options.
+func convertOutcome(sc *scenario, t reflect.Type, shared []am.Arg) (out string) {
+	defer func() {
+		if p := recover(); p != nil {
+			out = "cv:panic:" + classifyPanic(p)
+		}
+	}()
+	v, err := am.Convert(t, shared...)
+	if err != nil {
+		c := sc.classifyErr(err)
+		if i := strings.Index(c, " "); i > 0 {
+			c = c[:i]
+		}
+		return "cv:err:" + c
+	}
+	if v == nil {
+		return "cv:nil"
+	}
+	return "cv:ok"
+}
+
 func genRace(w *bufio.Writer, r *rng, id int, goroutines, rounds int) {
 	c := cfgGeneral
 	c.pOnce = 35
@@ -136,6 +158,9 @@ func genRace(w *bufio.Writer, r *rng, id int, goroutines, rounds int) {
 			}()
 			seq[outcomeOf(sc, res, pan)] = true
 		}
+		if tT := sc.Funcs[0].Ins; len(tT) > 0 {
+			seq[convertOutcome(sc, tyOf(tT[0].Ty), shared)] = true
+		}
 		sc.buildAll()
 		for _, f := range sc.Funcs {
 			f.execs = 0 // fresh objects: "first execution" scripts start over
@@ -184,9 +209,8 @@ func genRace(w *bufio.Writer, r *rng, id int, goroutines, rounds int) {
 						out = outcomeOf(sc, res, nil)
 					case 2:
 						if len(tT) > 0 {
-							_, err := am.Convert(tyOf(tT[0].Ty), shared...)
-							out = "convert"
-							_ = err
+							// Convert is a call of the identity function on that type: it must end as it does sequentially
+							out = convertOutcome(sc, tyOf(tT[0].Ty), shared)
 						}
 					case 3:
 						if rf != nil && k%2 == 0 {
@@ -237,7 +261,7 @@ func genRace(w *bufio.Writer, r *rng, id int, goroutines, rounds int) {
 	// order and tie-breaking): before it is reported, sample sequential executions much harder
 	unseen := func() bool {
 		for k := range got {
-			if (strings.HasPrefix(k, "ok:") || strings.HasPrefix(k, "err:") || strings.HasPrefix(k, "panic:")) && !seq[k] {
+			if (strings.HasPrefix(k, "ok:") || strings.HasPrefix(k, "err:") || strings.HasPrefix(k, "panic:") || strings.HasPrefix(k, "cv:")) && !seq[k] {
 				return true
 			}
 		}
